@@ -44,12 +44,13 @@ theorem generated_all_ops_known_c17 : taskSemKnown = true := by decide
 
 
 
+
 -- BEGIN PINS (written by bin/mkpins; do not edit by hand)
 /-- the Go functions this property's model and obligations were written against have exactly the
 pinned skeletons (SHA-256 prefix of the atom list) -/
 theorem pinned_skeletons_c17 :
     pinsOk
-    [("Scipipe.#decls", "7633eb8a74616d59"),
+    [("Scipipe.#decls", "08e57e98702ecd70"),
      ("Scipipe.FileIP_CreateFifo", "f6360b33d779c2ee"),
      ("Scipipe.FileIP_FifoFileExists", "b822f2c3227ef952"),
      ("Scipipe.FileIP_FifoPath", "03369ad2f75ce2a0"),
